@@ -15,7 +15,9 @@ RULE = (
     "[offset[:name]] / offset-without-milliseconds; the same for times) x offset -12:00..+14:00 in whole minutes "
     "rendered signed/unsigned, with/without .MM x zone name -> text; expected instant from integer civil-date "
     "arithmetic; every single-field corruption of each valid text must be rejected.  writing: aware datetimes / "
-    "times at microsecond resolution; own parser of the written form.  Exhaustive table: all 1561 offsets x "
+    "times at microsecond resolution in fixed-offset zones (named, unnamed, nameless tzinfo) and in shared zone objects "
+    "whose offset depends on the date (as zoneinfo zones do); own parser of the written form; the same instant written "
+    "again in another zone.  Exhaustive table: all 1561 offsets x "
     "renderings x boundary instants.  non-trivial = non-zero offset minutes, negative offset, day roll-over, "
     "sub-millisecond part >= 500us, or a corruption case; distinct by case hash"
 )
@@ -164,7 +166,7 @@ def check_case(case):
         is_time = case["is_time"]
         T = _dt_type(is_time)
         off = case["off"]
-        tz = _tz(off, case.get("name"), case.get("noname"))
+        tz = _tz(off, case.get("name"), case.get("noname"), case.get("dst_std"))
         y, mo, d, h, mi, s, us = case["y"], case["mo"], case["d"], case["h"], case["mi"], case["s"], case["us"]
         if is_time:
             value = dt.time(h, mi, s, us, tzinfo=tz)
@@ -251,7 +253,32 @@ class _NoName(dt.tzinfo):
         return None
 
 
-def _tz(off, name, noname=False):
+class _DstZone(dt.tzinfo):
+    """One tzinfo object with two offsets (like a zoneinfo zone): months 4-9 are an hour ahead of the others."""
+
+    def __init__(self, std):
+        self._std = std
+
+    def _summer(self, d):
+        return d is not None and 4 <= d.month < 10
+
+    def utcoffset(self, d):
+        return dt.timedelta(minutes=self._std + (60 if self._summer(d) else 0))
+
+    def tzname(self, d):
+        return "XDT" if self._summer(d) else "XST"
+
+    def dst(self, d):
+        return dt.timedelta(minutes=60 if self._summer(d) else 0)
+
+
+_DST_ZONES = {}
+
+
+def _tz(off, name, noname=False, dst_std=None):
+    if dst_std is not None:
+        # shared per standard offset, as zoneinfo zones are shared per key
+        return _DST_ZONES.setdefault(dst_std, _DstZone(dst_std))
     if noname:
         return _NoName(off)
     if name is None:
@@ -279,6 +306,11 @@ def write_case(draw):
         c["name"] = draw(st.one_of(st.sampled_from(["EST", "a:b", "x]y", "Z"]), st.text(NAME_ALPHA, min_size=1, max_size=8)))
     if draw(st.integers(0, 2)) == 0:
         c["twin_off"] = draw(_offsets().filter(lambda o: o != off))
+    if not is_time and draw(st.integers(0, 3)) == 0:
+        # a zone object whose offset depends on the date (few distinct zones, so that one object is written with both offsets)
+        std = draw(st.sampled_from([-300, -480, 60, 570, 0]))
+        c = {k: v for k, v in c.items() if k not in ("name", "noname", "twin_off")}
+        c.update(dst_std=std, off=std + (60 if 4 <= mo < 10 else 0))
     return c
 
 
@@ -326,6 +358,8 @@ def _labels(c):
         labs.append("zone name with : or ]")
     if "twin_off" in c:
         labs.append("equal instant written twice in different zones")
+    if "dst_std" in c:
+        labs.append("zone object with date-dependent offset")
     return labs
 
 
